@@ -23,6 +23,10 @@ CUSTOM3 = {  # three layers, low-Ksat / penetrability-50 middle layer
     "type": "custom",
     "layers": [[0.3, 0.12, 0.26, 0.43, 600.0, 100], [0.3, 0.30, 0.44, 0.50, 4.0, 50], [2.4, 0.15, 0.31, 0.46, 300.0, 100]],
 }
+CUSTOM3U = {  # three contrasting layers whose boundaries are float-unlucky sums (0.3 + 0.6 = 0.8999..): a loamy-sand layer between two clays
+    "type": "custom",
+    "layers": [[0.3, 0.30, 0.44, 0.50, 40.0, 100], [0.6, 0.08, 0.16, 0.38, 1500.0, 100], [3.1, 0.23, 0.39, 0.52, 20.0, 100]],
+}
 CUSTOMTEX = {"type": "custom", "texture": [[0.4, 40, 20, 2.5, 100], [2.6, 20, 40, 1.5, 100]]}
 
 SAND_OVER_CLAY = {"type": "custom", "layers": [[0.3, 0.06, 0.13, 0.36, 3000.0, 100], [3.7, 0.39, 0.54, 0.55, 35.0, 100]]}
@@ -39,6 +43,7 @@ SOILS = {
     "Paddy": {"type": "Paddy"},
     "Tunis": {"type": "ac_TunisLocal"},
     "custom3": CUSTOM3,
+    "custom3u": CUSTOM3U,
     "customtex": CUSTOMTEX,
 }
 
@@ -87,6 +92,7 @@ FIELD = {
     "bunds50w500": {"bunds": True, "z_bund": 0.05, "bund_water": 500},
     "mulch": {"mulches": True, "mulch_pct": 100, "f_mulch": 1.0},
     "mulch50": {"mulches": True, "mulch_pct": 50, "f_mulch": 0.5},
+    "bunds_mulch": {"bunds": True, "z_bund": 0.15, "bund_water": 0, "mulches": True, "mulch_pct": 80, "f_mulch": 0.5},   # two features at once
     "srinhb": {"sr_inhb": True},
     "cn+20": {"curve_number_adj": True, "curve_number_adj_pct": 20},
     "cn-20": {"curve_number_adj": True, "curve_number_adj_pct": -20},
@@ -140,11 +146,11 @@ WINDOWS = {  # (start offset in days relative to first planting, n seasons, trai
 }
 
 WATER_MENUS = {
-    "soil": ["SandyLoam", "Sand", "Clay", "Paddy", "custom3", "ClayLoam", "sandoverclay", "clayoversand"],
+    "soil": ["SandyLoam", "Sand", "Clay", "Paddy", "custom3", "ClayLoam", "sandoverclay", "clayoversand", "custom3u"],
     "dz": ["d12", "nonuni", "deep30", "few8"],
     "iwc": IWC_KINDS,
     "irr": ["none", "smt", "smt100e70", "int3", "sched", "net80", "net50", "net100", "const8e70", "const40e40", "smt_cap60", "smt_e72.5", "const8e87.75", "int3e62.5"],
-    "field": ["none", "bunds200", "bunds50w20", "bunds50w500", "mulch", "srinhb", "cn+20"],
+    "field": ["none", "bunds200", "bunds50w20", "bunds50w500", "mulch", "srinhb", "cn+20", "bunds_mulch"],
     "fallow": ["none", "bunds50w20", "mulch"],
     "gw": ["none", "0.3", "0.8", "1.5", "rising_v", "falling_c"],
     "off": [False, True],
@@ -338,6 +344,10 @@ WATER_BASES = [
     # from the initial profile, and from a simulated fallow whose showers wetted the top compartment only
     _b(soil="SandyLoam", iwc="DepthWetTop", irr="net80", word="dry", crop="maize.2", win="w1"),
     _b(soil="ClayLoam", iwc="Pct50", irr="net50", word="showers", crop="cotton.2", off=True, win="w2", dz="nonuni"),
+    # bunds and mulches together on slowly draining soil with showers: shallow ponds that evaporation uses up within a day or two
+    _b(soil="Paddy", iwc="SAT", field="bunds_mulch", word="showers", crop="rice.2", irr="none"),
+    # three contrasting layers with float-unlucky boundaries under a shallow table (every compartment is driven to its own layer's limits)
+    _b(soil="custom3u", iwc="Pct50", gw="0.8", dz="nonuni", word="dry", crop="cotton.2", irr="none"),
 ]
 
 
